@@ -580,7 +580,7 @@ func init() {
 // which the simulator cannot host.
 func c16Real(w *W) {
 	kind := []string{"pull", "bus", "sub", "pair", "xrep", "xsurveyor", "star"}[w.Choose(simrt.SShape, 7)]
-	tran := []string{"tcp", "ws", "tls+tcp"}[w.Choose(simrt.SShape, 3)]
+	tran := []string{"tcp", "ws", "tls+tcp", "wss"}[w.Choose(simrt.SShape, 4)]
 	limit := []int{100, 1000, 5000}[w.Choose(simrt.SShape, 3)]
 	srvCfg, cliCfg := tlsConfigs()
 	w.SetShape("kind", kind)
@@ -595,10 +595,10 @@ func c16Real(w *W) {
 	}
 	url := tran + "://" + loopIP + ":0"
 	var lopts map[string]interface{}
-	if tran == "ws" {
-		url = "ws://" + loopIP + ":0/sp"
+	if tran == "ws" || tran == "wss" {
+		url = tran + "://" + loopIP + ":0/sp"
 	}
-	if tran == "tls+tcp" {
+	if tran == "tls+tcp" || tran == "wss" {
 		lopts = map[string]interface{}{mangos.OptionTLSConfig: srvCfg}
 	}
 	l, err := s.NewListener(url, lopts)
@@ -607,7 +607,7 @@ func c16Real(w *W) {
 		return
 	}
 	addr := l.Address()
-	hostport := strings.TrimPrefix(strings.TrimPrefix(strings.TrimPrefix(addr, "tls+tcp://"), "tcp://"), "ws://")
+	hostport := strings.TrimPrefix(strings.TrimPrefix(strings.TrimPrefix(strings.TrimPrefix(addr, "tls+tcp://"), "tcp://"), "wss://"), "ws://")
 	hostport = strings.TrimSuffix(hostport, "/sp")
 	info := s.Info()
 	pairLike := kind == "pair"
@@ -616,6 +616,16 @@ func c16Real(w *W) {
 		send  func([]byte) error
 		close func()
 		alive func() bool // false once mangos closed the connection
+		reset func()      // abrupt loss: RST instead of an orderly close
+	}
+	rst := func(c net.Conn) {
+		if tc, ok := c.(*tls.Conn); ok {
+			c = tc.NetConn()
+		}
+		if tcp, ok := c.(*net.TCPConn); ok {
+			_ = tcp.SetLinger(0)
+		}
+		_ = c.Close()
 	}
 	connect := func() *peerT {
 		if tran == "tcp" || tran == "tls+tcp" {
@@ -639,6 +649,7 @@ func c16Real(w *W) {
 			return &peerT{
 				send:  func(p []byte) error { _, err := c.Write(wcFrame(false, p)); return err },
 				close: func() { c.Close() },
+				reset: func() { rst(c) },
 				alive: func() bool {
 					c.SetReadDeadline(time.Now().Add(10 * time.Second))
 					_, err := c.Read(make([]byte, 1))
@@ -647,7 +658,7 @@ func c16Real(w *W) {
 				},
 			}
 		}
-		d := &websocket.Dialer{Subprotocols: []string{info.SelfName + ".sp.nanomsg.org"}}
+		d := &websocket.Dialer{Subprotocols: []string{info.SelfName + ".sp.nanomsg.org"}, TLSClientConfig: cliCfg, HandshakeTimeout: 20 * time.Second}
 		c, _, err := d.Dial(addr, nil)
 		if err != nil {
 			return nil
@@ -655,6 +666,7 @@ func c16Real(w *W) {
 		return &peerT{
 			send:  func(p []byte) error { return c.WriteMessage(websocket.BinaryMessage, p) },
 			close: func() { c.Close() },
+			reset: func() { rst(c.UnderlyingConn()) },
 			alive: func() bool {
 				c.SetReadDeadline(time.Now().Add(10 * time.Second))
 				_, _, err := c.ReadMessage()
@@ -716,9 +728,22 @@ func c16Real(w *W) {
 	}
 	nops := 2 + w.Choose(simrt.SShape, 5)
 	for op := 0; op < nops && !w.Failed(); op++ {
-		k := w.Choose(simrt.SProg, 6)
+		k := w.Choose(simrt.SProg, 7)
 		a := w.Choose(simrt.SProg, 1<<16)
 		switch k {
+		case 6: // a conforming, attached peer vanishes with a reset
+			if pairLike {
+				continue
+			}
+			p := connect()
+			if p == nil {
+				w.Failf("C16/conforming-peer-not-attached", "cannot connect")
+				return
+			}
+			time.Sleep(20 * time.Millisecond)
+			w.Op("hostile: an attached peer's connection is reset")
+			w.Fault("reset")
+			p.reset()
 		case 0: // raw junk at connection level
 			c, err := net.Dial("tcp", hostport)
 			if err != nil {
@@ -787,7 +812,7 @@ func c16Real(w *W) {
 			}
 			p.close()
 		case 4: // tcp: absurd announcement; ws: HTTP without upgrade
-			if tran == "tls+tcp" {
+			if tran == "tls+tcp" || tran == "wss" {
 				continue
 			}
 			c, err := net.Dial("tcp", hostport)
